@@ -25,6 +25,16 @@ CHECKS = {
    "Bursts of 2-64 identical cold requests on 1-4 keys over 1-3 epochs with the fetch held at the origin until the hook counter shows every other request parked (so coalescing is really exercised), jitter at four hook points between pike's critical sections; the directed schedule of the quantifier (expiry between a waiter's wake-up and its resumption while the next fetcher is in flight); staggered clients with a concurrent clock advancer checked per key with porcupine. Evidence lists parked waiters and distinct interleaving signatures.",
    "virtual clock and hook points (tag-guarded); no eviction or purge during a fetch (cache 100000 >> keys, asserted through the eviction hook); interleavings are those the stressors produce plus the directed one",
    "DESIGN.md 6/C01"),
+ "C07": ("inproc", "exploration",
+   "reference-model replay of recorded histories + origin in-flight monitor with all contacts held (not-queued oracle) + hooked entry state + porcupine",
+   "Histories for seven configured periods (incl. non-positive and sub-second => 300 s): probes answered uncacheable / without Cache-Control / 5xx / protocol error / cacheable, bursts of 1-24 at mark+0, +1, +P-1, +P and +P+1; during the period the origin holds every contact until all N of the burst are in flight together (independent, not queued) and the hook counter shows nobody parked; at +P+1 exactly one probe is in flight and N-1 are parked; staggered porcupine histories with a concurrent clock advancer.",
+   "virtual clock and hook points; no eviction; a transport-level retry of one request counts as one contact",
+   "DESIGN.md 6/C07"),
+ "C02": ("inproc", "fault_enumeration",
+   "conservation monitor (every call event has a return event) + quiescent invariant on hooked entry state + follow-up probe, over enumerated fetch outcomes x waiter positions; goroutine dump only as witness",
+   "Enumerates 9 fetch outcomes (cacheable, uncacheable, 5xx, upstream protocol error, undecodable body = no response object, hang beyond ProxyTimeout, panic at the proxy hook, truncated upstream body = net/http abort panic, fetcher's client dropping its connection) x 4 waiter positions (parked; one waiter registered but not yet receiving while the completion runs; the same with a purge of the key; arriving after completion), then random outcome sequences across epochs on one key. Verdict: all requests returned, entry status != fetching and no registered waiters at quiescence, each waiter either got the fetched response or made its own upstream contact, follow-up served normally.",
+   "liveness restated as bounded progress at quiescence (20 s watchdog only triggers the state inspection); termination without ProxyTimeout against a never-answering upstream is not demanded",
+   "DESIGN.md 6/C02"),
 }
 ALL = ["C%02d" % i for i in range(1, 21)]
 NOT_BUILT_REASON = "no check is registered for this property yet (framework under construction; see DESIGN.md Appendix B build order)"
